@@ -330,3 +330,36 @@ def with_explicit_edges(spec: dict) -> dict:
                 edges.append(pair)
     s["edges"] = edges
     return s
+
+
+def gen_wait_dag(rng, allow_int=False, p_default_edge=0.0):
+    spec = gen_dag(rng, p_emit=0.45, p_default_edge=p_default_edge, p_noout=0.05, n_nodes=(3, 8))
+    nodes = spec["nodes"]
+    for idx, ns in enumerate(nodes):
+        if idx == 0:
+            continue
+        earlier = nodes[:idx]
+        own = {p["n"] for p in ns["params"]}
+        cands = [e for x in earlier for e in x.get("emit", [])] + [o for x in earlier for o in x.get("outs", []) if o not in own]
+        cands = [c for c in cands if c not in own and c not in ns.get("emit", []) and c not in ns.get("outs", [])]
+        if cands and rng.random() < 0.55:
+            ns["wait"] = rng.sample(cands, min(len(cands), rng.randint(1, 2)))
+    # a gate that emits, waited for by a plain node
+    if rng.random() < 0.35 and len(nodes) >= 3:
+        t = [ns["name"] for ns in nodes[-2:]]
+        key = "sg"
+        spec["inputs"] = spec["inputs"] + [key]
+        nodes.insert(len(nodes) - 2, {"k": "ifelse", "name": "wg", "params": [{"n": key}], "t": t[0], "f": t[1], "table": [True, False], "emit": ["wg_done"], "open": rng.random() < 0.5})
+        nodes.append({"k": "fn", "name": "after_gate", "params": [{"n": "aux_g"}], "outs": ["ag"], "wait": ["wg_done"]})
+    if allow_int and rng.random() < 0.4:
+        # an auto-resolving interrupt as the producer of a signal
+        cand = [ns for ns in nodes if ns["k"] == "fn" and len(ns.get("outs", [])) == 1 and not ns.get("gen") and ns["params"]]
+        if cand:
+            ns = rng.choice(cand)
+            ns["k"] = "int"
+            ns["handler"] = ["auto", f"answer:{ns['name']}"]
+            ns.setdefault("emit", [f"ie_{ns['name']}"])
+            nodes.append({"k": "fn", "name": "after_int", "params": [{"n": "aux_i"}], "outs": ["ai"], "wait": [ns["emit"][0]]})
+    return spec
+
+
